@@ -159,9 +159,13 @@ def nondet : List (String × String × String) := [
   ("x/aol.InitGenesis", "range-over-map", "genState.Topics"),
   ("x/aol.InitGenesis", "range-over-map", "genState.Writers"),
   ("x/aol/types.GenesisState.Validate", "range-over-map", "gs.Owners"),
+  ("x/aol/types.GenesisState.Validate", "range-over-map", "gs.Owners"),
   ("x/aol/types.GenesisState.Validate", "range-over-map", "gs.Records"),
   ("x/aol/types.GenesisState.Validate", "range-over-map", "gs.Topics"),
+  ("x/aol/types.GenesisState.Validate", "range-over-map", "gs.Topics"),
   ("x/aol/types.GenesisState.Validate", "range-over-map", "gs.Writers"),
+  ("x/aol/types.GenesisState.Validate", "range-over-map", "topicsOfOwner"),
+  ("x/aol/types.GenesisState.Validate", "range-over-map", "writersOfTopic"),
   ("x/did.InitGenesis", "range-over-map", "data.Documents"),
   ("x/did/types.GenesisState.Validate", "range-over-map", "data.Documents")
 ]
